@@ -81,8 +81,12 @@ def generate(seed, tier="quick"):
             calls.append({"kind": "repeat"})
         elif k < 0.87:
             calls.append({"kind": "abort", "point": o.choice(faults.ABORT_POINTS), "with_ps": o.random() < 0.5})
-        else:
+        elif k < 0.94:
             calls.append({"kind": "reject", "why": o.choice(["ckpt_too_small", "no_tmax", "clamp_short"])})
+        else:
+            # the same module simulated with *another* integration scheme (and back): must equal what a fresh deep copy,
+            # which has never been simulated, returns for that scheme
+            calls.append({"kind": "other_scheme", "mode": o.choice(["eager", "jit"])})
     return {"prop": PROPERTY, "shape": shape, "ops": ops, "N": N, "steps": steps, "dt": o.choice(DTS),
             "solver": o.choice(["bwd_euler", "bwd_euler", "crank_nicolson"]), "vsolver": o.choice(["jaxley.stone", "jaxley.thomas", "jax.sparse"]),
             "use_params": o.random() < 0.6, "calls": calls, "use_param_state": o.choice([0, 0, o.randrange(1, 1 << 20), o.randrange(1, 1 << 20)])}
@@ -255,6 +259,30 @@ def execute(program):
                         if exc_in_harness(e):
                             raise
                         w.bump("fault_reject")
+            elif kind == "other_scheme":
+                other = "crank_nicolson" if base["solver"] == "bwd_euler" else "bwd_euler"
+                try:
+                    out = call(solver=other, mode=c["mode"])
+                except Exception as e:  # noqa: BLE001
+                    if exc_in_harness(e) or not is_backend_refusal(e):
+                        raise
+                    w.bump("probe_backend_refusal")  # this backend does not offer the other scheme for this model
+                    w.chain.add("call", {"c": c, "refused": True})
+                    continue
+                try:
+                    fresh = faults.persist(m, "deepcopy")
+                except faults.PersistFailed as e_:
+                    raise HarnessError(str(e_)) from e_
+                want = simrun.integrate(fresh, **dict(base, params=fresh.get_parameters() if params is not None else None, solver=other))
+                w.bump("oracle_other_scheme")
+                w.bump("fault_knob_other_scheme")
+                if out.shape != want.shape or not simrun.close(out[mask], want[mask]):
+                    w.violate("mode_equal", f"solver={other} on a module that was simulated with solver={base['solver']} before differs from a fresh deep copy "
+                              f"of the module by {simrun.maxdiff(out[mask], want[mask]):.3e}", nidx, {"mode": "other_scheme"})
+                again = call()
+                if not np.array_equal(again, ref_out, equal_nan=True):
+                    w.violate("repeat_bit_identical", f"the plain call after a call with solver={other} differs from the plain call before it by "
+                              f"{simrun.maxdiff(again, ref_out):.3e}", nidx)
             elif kind == "vmap":
                 if base["vsolver"] == "jax.sparse":
                     # JAX has no batching rule for its sparse solve: vmap over jax.sparse is a backend refusal
@@ -310,7 +338,9 @@ def do_vmap(w, m, c, base, params, ref_out, mask, steps, nidx, call):
     else:
         L = steps if not ref.externals else len(next(iter(ref.externals.values()))[0][1])
         wave = jnp.asarray([uval(c["seed"], "vstim", j, -0.05, 0.1) for j in range(L)])
-        view = m.select(nodes=[t])
+        # one trace for one compartment, or (every other seed) one 1-D trace shared by two compartments of a view
+        t2 = (t + 1 + (c["seed"] >> 3) % max(ref.n - 1, 1)) % ref.n
+        view = m.select(nodes=sorted({t, t2}) if c["seed"] % 2 else [t])
         f = lambda a: jx.integrate(m, p0, data_stimuli=view.data_stimulate(a * wave, None), **kw)  # noqa: E731
         arg = factors
         seq = [fac for fac in factors]
